@@ -320,18 +320,40 @@ func (w *world) setKeys(t fataler, entries []string, expectCleanup bool) {
 	}
 }
 
+// trueKeys reads the configured key list from the option itself. Getters
+// (cfgKeys, and the one the API uses) cache the value and only refresh after a
+// change has been *signalled*; while some SetConfigOption is between storing
+// the value and signalling it, getters and option disagree.
+func trueKeys() string {
+	opt, err := config.GetOption(api.CfgAPIKeys)
+	if err != nil {
+		return "\x01no such option"
+	}
+	v, _ := opt.UserValue().([]string)
+	return keyString(v)
+}
+
+// settledKeys returns the configured key list and whether no change of it is
+// in flight (option and getter agree).
+func settledKeys() (string, bool) {
+	c := keyString(cfgKeys())
+	return c, c == trueKeys()
+}
+
 // syncKeys makes sure that the API has imported the API keys of the value the
 // configuration holds right now, and derives the model from that value. It
 // returns the value. Afterwards, as long as the configured value stays the
 // same, every (also asynchronous) re-import yields the same key table.
 func (w *world) syncKeys() string {
+	deadline := time.Now().Add(10 * time.Second)
 	for {
-		v := keyString(cfgKeys())
-		if v == w.synced {
-			return v
+		v, settled := settledKeys()
+		if !settled && time.Now().Before(deadline) {
+			time.Sleep(20 * time.Microsecond)
+			continue
 		}
 		api.VerifSyncAPIKeys()
-		if keyString(cfgKeys()) != v {
+		if v2, s2 := settledKeys(); (v2 != v || !s2) && time.Now().Before(deadline) {
 			continue // changed under our feet, again
 		}
 		w.synced = v
@@ -350,7 +372,7 @@ func (w *world) stepStable(t fataler, q reqSpec) (res result, o outcome, ok bool
 		sessBefore := cloneSessions(w.sessions)
 		var msg string
 		res, o, msg = w.stepE(q)
-		if keyString(cfgKeys()) != v1 {
+		if v2, settled := settledKeys(); v2 != v1 || !settled {
 			// the configuration changed while the request ran: not a valid observation
 			stats.Class("discarded_config_changed_during_request")
 			w.keys, w.sessions = keysBefore, sessBefore
